@@ -104,7 +104,12 @@ def t_str_nul(facts, res, tier):
     res.inst("T-STR-NUL:nul", True, {"after_loop": [expr_text(s) for s in after]})
     if len(nul) != 1 or pushed_code(nul[0]) != 0:
         res.fail("T-STR-NUL:nul", facts.where(fn), "exactly one NUL must be appended after the fragments (found %d pushes)" % len(nul))
-    others = [s for s in after if s not in nul and not (s.get("k") == "path" and not s.get("semi"))]
+    def is_result(s):
+        # the tail: `v` or `Ok(v)`
+        if s.get("k") == "path" and not s.get("semi"):
+            return True
+        return s.get("k") == "call" and not s.get("semi") and expr_text(s["func"]) == "Ok" and len(s["args"]) == 1 and s["args"][0].get("k") == "path"
+    others = [s for s in after if s not in nul and not is_result(s)]
     if others:
         res.fail("T-STR-NUL:nul", facts.where(fn), "statements other than the NUL push follow the concatenation: %s" % [expr_text(s) for s in others])
     # who calls the decoder
@@ -165,8 +170,8 @@ def normalise_calc(body):
         expr = stmts[-1] if stmts else body
     t = expr_text(expr)
     def sub(t):
-        t = re.sub(r"\blhs\.unwrap\(\)|\blhs\?", "L", t)
-        t = re.sub(r"\brhs\.unwrap\(\)|\brhs\?", "R", t)
+        t = re.sub(r"\blhs(\.unwrap\(\)|\?)?", "L", t)
+        t = re.sub(r"\brhs(\.unwrap\(\)|\?)?", "R", t)
         return t
     t = sub(t)
     for a, v in aliases.items():
@@ -200,7 +205,10 @@ def t_calc_ops(facts, res, tier):
     pre = closure_arg(fn, "map_prefix")
     if inf is None or pre is None:
         raise AnchorMissing("parse_calc: map_infix/map_prefix closures not found")
+    from astlib import plain_arith, local_closures
     m, arms = rule_arms(inf)
+    helpers = local_closures(inf["body"])
+    arms = {k: plain_arith(v, helpers) for k, v in arms.items()}
     for op, accepted in sorted(CALC_INFIX.items()):
         key = "T-CALC-OPS:infix:%s" % op
         if op not in arms:
@@ -214,6 +222,7 @@ def t_calc_ops(facts, res, tier):
         if op == "div" and not any(g.replace("(", "").replace(")", "") in ("R==0", "0==R") for g in guards):
             res.fail(key + ":zero-guard", facts.where(fn, arms[op]), "division in the calculator is not guarded by a zero test that returns an error")
     m2, parms = rule_arms(pre)
+    parms = {k: plain_arith(v, local_closures(pre["body"])) for k, v in parms.items()}
     for op, accepted in sorted(CALC_PREFIX.items()):
         key = "T-CALC-OPS:prefix:%s" % op
         if op not in parms:
@@ -238,6 +247,7 @@ FOLD_OPS = {"Add": "+", "Sub": "-", "And": "&", "Or": "|", "Xor": "^", "Mul": "*
 @rule("T-FOLD", floor=15,
       text="every constant-folding arm in the generator (generate_arithm and generate_shift on two immediates, generate_neg/not/bnot on a literal, the immediate_special table of generate_condition) applies the operator of the Operation it is the arm for")
 def t_fold(facts, res, tier):
+    from astlib import plain_arith, local_closures
     n = 0
     for fname in ("generate_arithm", "generate_shift", "generate_condition"):
         fn = facts.fn(fname, "GeneratorState")
@@ -251,7 +261,7 @@ def t_fold(facts, res, tier):
                 opn = p["segs"][-1]
                 if opn not in FOLD_OPS:
                     continue
-                bt = expr_text(arm["body"])
+                bt = expr_text(plain_arith(arm["body"], local_closures(fn["body"])))
                 mm = re.search(r"ExprType::Immediate\(\((\w+)(\W{1,2})(\w+)\)\)", bt)
                 kind = "value"
                 if not mm:
@@ -279,7 +289,7 @@ def t_fold(facts, res, tier):
                 for arm in m["arms"]:
                     if pat_text(arm["pat"]).startswith("Expr::Integer("):
                         var = pat_text(arm["pat"])[len("Expr::Integer("):-1]
-                        mm = re.search(r"ExprType::Immediate\((.*?)\)\)?$", expr_text(arm["body"]))
+                        mm = re.search(r"ExprType::Immediate\((.*?)\)\)?$", expr_text(plain_arith(arm["body"], local_closures(fn["body"]))))
                         if mm:
                             got = mm.group(1).replace(var, "i")
         res.inst(key, True, {"folds_as": got})
@@ -301,6 +311,12 @@ def t_div_guard(facts, res, tier):
         # parent chain of blocks
         def visit(node, blocks):
             k = node.get("k")
+            if k == "mcall" and node["method"] in ("checked_div", "checked_rem", "checked_div_euclid", "checked_rem_euclid") and node.get("args"):
+                # a zero divisor gives None, not a panic: what becomes of the None is T-CONST-ARITH's / the caller's business
+                res.inst("T-DIV-GUARD:%s:%s" % (fn["name"], expr_text(node)), True, {"divisor": expr_text(node["args"][0]), "guarded": "checked division"})
+            if k == "mcall" and node["method"] in ("wrapping_div", "wrapping_rem", "overflowing_div", "overflowing_rem", "saturating_div") and node.get("args"):
+                node = {"k": "binary", "op": "/", "l": node["recv"], "r": node["args"][0], "loc": node.get("loc")}
+                k = "binary"
             if k in ("binary", "assignop") and node["op"] in ("/", "%"):
                 d = node["r"]
                 dt = expr_text(d)
